@@ -1,3 +1,5 @@
+import math
+
 import torch
 import torch.distributions
 
@@ -131,6 +133,49 @@ def calculate_treelikelihood_tip_states_discrete(
     )
 
 
+def _rescale_partials(partial: torch.Tensor) -> tuple:
+    r"""Divide the partials of every rate category and site by their largest entry.
+
+    Each rate category has its own scaler: with a shared one, a category that keeps
+    a partial of one (an invariant category over a conserved clade) would leave the
+    other categories unscaled and they would underflow.
+
+    :param partial: partials [...,K,S,N]
+    :return: rescaled partials [...,K,S,N] and log scalers [...,K,1,N]
+    """
+    scaler, _ = torch.max(partial, -2, keepdim=True)
+    # a category that cannot generate the site (all partials zero) is left alone
+    scaler = torch.where(scaler > 0.0, scaler, torch.ones_like(scaler))
+    return partial / scaler, scaler.log()
+
+
+def _rescaled_log_likelihood(
+    root_partials: torch.Tensor,
+    log_scalers: torch.Tensor,
+    weights: torch.Tensor,
+    freqs: torch.Tensor,
+    props: torch.Tensor,
+) -> torch.Tensor:
+    r"""Combine the rescaled root partials of the rate categories.
+
+    :param root_partials: rescaled partials at the root [...,K,S,N]
+    :param log_scalers: sum of the log scalers of each category [...,K,1,N]
+    :param weights: [N]
+    :param freqs: tensor of frequencies [...,1,S]
+    :param props: tensor of proportions [...,K,1,1]
+    :return: tree log likelihood [batch]
+    """
+    root = freqs.unsqueeze(-3) @ root_partials
+    # categories are added on the scale of the largest contributing one
+    log_scalers = torch.where(
+        root > 0.0, log_scalers, torch.full_like(log_scalers, -math.inf)
+    )
+    offset, _ = log_scalers.detach().max(-3, keepdim=True)
+    offset = torch.where(torch.isfinite(offset), offset, torch.zeros_like(offset))
+    site = torch.sum(props * root * torch.exp(log_scalers - offset), dim=-3)
+    return torch.sum((torch.log(site) + offset.squeeze(-3)) * weights, dim=-1)
+
+
 def calculate_treelikelihood_discrete_safe(
     partials: list,
     weights: torch.Tensor,
@@ -154,7 +199,7 @@ def calculate_treelikelihood_discrete_safe(
     :param threshold: threshold for rescaling
     :return: tree log likelihood [batch]
     """
-    scalers = []
+    log_scalers = 0.0
     rescaled = [False] * (post_indexing[-1][0] + 1)
     for node, left, right in post_indexing:
         if (
@@ -165,21 +210,11 @@ def calculate_treelikelihood_discrete_safe(
             partial = (mats[..., left, :, :, :] @ partials[left]) * (
                 mats[..., right, :, :, :] @ partials[right]
             )
-            scaler, _ = torch.max(
-                partial.view(*partial.shape[:-3], -1, *partial.shape[-1:]),
-                -2,
-                keepdim=True,
-            )
-            scalers.append(scaler)
-            partials[node] = partial / scaler.unsqueeze(-2)
+            partials[node], log_scaler = _rescale_partials(partial)
+            log_scalers = log_scalers + log_scaler
             rescaled[node] = True
-    return torch.sum(
-        (
-            torch.log(freqs @ torch.sum(props * partials[post_indexing[-1][0]], dim=-3))
-            + torch.cat(scalers, -2).log().sum(dim=-2).unsqueeze(-2)
-        )
-        * weights,
-        dim=-1,
+    return _rescaled_log_likelihood(
+        partials[post_indexing[-1][0]], log_scalers, weights, freqs, props
     )
 
 
@@ -201,23 +236,15 @@ def calculate_treelikelihood_discrete_rescaled(
     :param props: tensor of proportions [...,K,1,1]
     :return: tree log likelihood [batch]
     """
-    scalers = []
+    log_scalers = 0.0
     for node, left, right in post_indexing:
         partial = (mats[..., left, :, :, :] @ partials[left]) * (
             mats[..., right, :, :, :] @ partials[right]
         )
-        scaler, _ = torch.max(
-            partial.view(*partial.shape[:-3], -1, *partial.shape[-1:]), -2, keepdim=True
-        )
-        scalers.append(scaler)
-        partials[node] = partial / scaler.unsqueeze(-2)
-    return torch.sum(
-        (
-            torch.log(freqs @ torch.sum(props * partials[post_indexing[-1][0]], dim=-3))
-            + torch.cat(scalers, -2).log().sum(dim=-2).unsqueeze(-2)
-        )
-        * weights,
-        dim=-1,
+        partials[node], log_scaler = _rescale_partials(partial)
+        log_scalers = log_scalers + log_scaler
+    return _rescaled_log_likelihood(
+        partials[post_indexing[-1][0]], log_scalers, weights, freqs, props
     )
 
 
@@ -249,7 +276,7 @@ def calculate_treelikelihood_tip_states_discrete_rescaled(
         -1,
     )
 
-    scalers = []
+    log_scalers = 0.0
     for node, left, right in post_indexing:
         if left < tip_count:
             p_left = mat_tips[..., left, :, :, partials[left]]
@@ -261,20 +288,10 @@ def calculate_treelikelihood_tip_states_discrete_rescaled(
         else:
             p_right = mats[..., right, :, :, :] @ partials[right]
 
-        partial = p_left * p_right
-
-        scaler, _ = torch.max(
-            partial.view(*partial.shape[:-3], -1, *partial.shape[-1:]), -2, keepdim=True
-        )
-        scalers.append(scaler)
-        partials[node] = partial / scaler.unsqueeze(-2)
-    return torch.sum(
-        (
-            torch.log(freqs @ torch.sum(props * partials[post_indexing[-1][0]], dim=-3))
-            + torch.cat(scalers, -2).log().sum(dim=-2).unsqueeze(-2)
-        )
-        * weights,
-        dim=-1,
+        partials[node], log_scaler = _rescale_partials(p_left * p_right)
+        log_scalers = log_scalers + log_scaler
+    return _rescaled_log_likelihood(
+        partials[post_indexing[-1][0]], log_scalers, weights, freqs, props
     )
 
 
